@@ -433,3 +433,24 @@ def collects_all(ctx, body, vec, src_pred, its=None):
         if every_iteration_does(it, ps):
             return True
     return False
+
+
+# ---------------------------------------------------------------------------------------------------------------
+# parameters by role rather than by position; a parameter seen from the call sites
+# ---------------------------------------------------------------------------------------------------------------
+def param_index_by_type(body, substr):
+    """index (0-based) of the only parameter of `body` whose type mentions `substr`, else None"""
+    hits = [i for i in range(body.arg_count) if substr in (body.raw['locals'][i + 1].get('ty') or '')]
+    return hits[0] if len(hits) == 1 else None
+
+
+def param_at_call_sites(ctx, body, term):
+    """terms the parameter `term` of the private function `body` receives at ALL its call sites in the crate ([] if none or not a param)"""
+    if not (M.is_param(term) and term[1] == body.name):
+        return []
+    out = []
+    for cb in ctx.F.bodies.values():
+        for (bb, t) in cb.calls():
+            if (t.get('callee') == body.name or t.get('resolved') == body.name) and term[2] < len(t['args']):
+                out.append(cb.origin.operand(t['args'][term[2]], cb.term_point(bb)))
+    return out
